@@ -1,28 +1,28 @@
-\* GEN_v6strict -- generated by mkcfg.py; StrictAddressFamily: absent family means IPv4 even on an IPv6 listener
+\* GEN_resv -- generated by mkcfg.py; EVEN-PORT / RESERVATION-TOKEN
 SPECIFICATION Spec
 VIEW View
 CONSTANTS
-  Clients = {"c6"}
+  Clients = {"c1", "c2"}
   Users = {"u1"}
-  PeerIPs = {"A", "X"}
+  PeerIPs = {"A"}
   PeerPorts = {1}
   Fam <- MCFam
   ListenFam <- MCListenFam
-  Strict = TRUE
-  ReqFams = {0, 6}
+  Strict = FALSE
+  ReqFams = {0, 4}
   ChanNums = {16384}
-  LifeReqs <- MCLifeAbsent
-  Txids = {"t1"}
+  LifeReqs <- MCLifeAbsent0
+  Txids = {"t1", "t2"}
   Pays = {"p"}
   Lens <- MCLenSmall
   InboundMTU = 1600
   PermSeqs <- MCPermSeqs1
-  DefaultLife = 5
-  PermTO = 2
-  ChanTO = 3
+  DefaultLife = 40
+  PermTO = 35
+  ChanTO = 35
   MaxLife = 3600
   Denied <- MCNoDenied
-  Toks = {"none"}
+  Toks = {"none", "even", "bogus", "c1", "c2"}
   ResvTO = 30
   MaxDepth = 5
 CONSTRAINT DepthBound
